@@ -75,8 +75,26 @@ def parseCmd? (s : String) : Option Cmd :=
       else none
   | _ => none
 
+/-- "K@None" marks the end of a `compute_caps()` call of the file-backed object -/
+def isCapsMark (t : String) : Bool := t == "K@None"
+
+/-- all `set_*` calls (the `compute_caps()` marks dropped) -/
 def parseCmds? (s : String) : Option (List Cmd) :=
-  if s == "-" then some [] else (s.splitOn "|").mapM parseCmd?
+  if s == "-" then some [] else ((s.splitOn "|").filter (fun t => !isCapsMark t)).mapM parseCmd?
+
+/-- (segments each ended by a `compute_caps()` mark, calls after the last mark) -/
+def parseSegs? (s : String) : Option (List (List Cmd) × List Cmd) :=
+  if s == "-" then some ([], []) else
+  let rec go (toks : List String) (cur : List Cmd) (segs : List (List Cmd)) :
+      Option (List (List Cmd) × List Cmd) :=
+    match toks with
+    | [] => some (segs.reverse, cur.reverse)
+    | t :: r =>
+      if isCapsMark t then go r [] (cur.reverse :: segs)
+      else match parseCmd? t with
+        | some c => go r (c :: cur) segs
+        | none => none
+  go (s.splitOn "|") [] []
 
 /-- `N@<text|None>` / `D@<text|None>` = assignment to `.name` / `.description`; otherwise a tensor call -/
 def parseMCmd? (s : String) : Option MCmd :=
@@ -88,7 +106,7 @@ def parseMCmd? (s : String) : Option MCmd :=
   | _ => (parseCmd? s).map MCmd.tensor
 
 def parseMCmds? (s : String) : Option (List MCmd) :=
-  if s == "-" then some [] else (s.splitOn "|").mapM parseMCmd?
+  if s == "-" then some [] else ((s.splitOn "|").filter (fun t => !isCapsMark t)).mapM parseMCmd?
 
 def kv (ws : List String) (k : String) : Option String :=
   ws.findSome? (fun w => if w.startsWith (k ++ "=") then some (w.drop (k.length + 1)).copy else none)
@@ -340,14 +358,14 @@ def step (F : Flags) (line : String) : String :=
             | _ => "bad-op"
     | _, _, _ => "bad-op"
   | "writer" :: _ | "crash-writer" :: _ | "writer-view" :: _ =>
-    match parseMeta? ws, (kv ws "cmds").bind parseCmds?, kv ws "mode",
+    match parseMeta? ws, (kv ws "cmds").bind parseSegs?, kv ws "mode",
           (kv ws "close").bind parseBool?, (kv ws "version").bind hexDecode? with
-    | some m, some cmds, some mode, some close, some ver =>
+    | some m, some (segs, rest), some mode, some close, some ver =>
       let env : Env := ⟨ver⟩
       match diskOf F env ws with
       | none => "bad-op"
       | some d0 =>
-        let r := writerW F env d0 mode m cmds close
+        let r := writerSegW F env d0 mode m segs rest close
         if ws.head? == some "writer" then showW r
         else if ws.head? == some "crash-writer" then
           let ci := ctorInfo F env d0 mode m true
